@@ -21,4 +21,22 @@ CLAIMED = {
              level_text="Success cases of the rows whose documentation promises nulled slack are checked element by element behind the terminator.",
              level_note=GEN_NOTE, design_ref="DESIGN.md 3 C08"),
 }
+
+CLAIMED.update({
+ "C06": dict(technique="property-based testing: valid operands from enumerated lattices and seeded random generation, differential oracle against reference models (libc counterpart on bounded private copies / doc-derived naive implementations), both library builds",
+             level_text="Success must yield exactly the reference result (contents, returned pointer, counts); when the reference result including the terminator does not fit in dmax the call must fail. Rows whose doc is ambiguous are declined by the model and listed in evidence.",
+             level_note=GEN_NOTE + " Reference models: harness/model.c.", design_ref="DESIGN.md 3 C06"),
+ "C07": dict(technique="property-based testing: exhaustive enumeration of every element offset of src relative to dest inside one object (small sizes) + random larger sizes, three-zone oracle (disjoint / hard overlap / in between) against a copy-through-temporary reference",
+             level_text="For each of the 22 copy/concatenate/memcpy/memmove rows every placement is classified from the elements the reference reads and writes; disjoint operands must behave normally, hard overlaps must fail with dest cleared, memmove rows must equal the temporary-copy result, nothing outside dest may change.",
+             level_note=GEN_NOTE + " Identical pointers are accepted only for the rows that special-case them in code pinned by the test suite.", design_ref="DESIGN.md 3 C07"),
+ "C10": dict(technique="property-based testing: exhaustive enumeration of all operand contents over a 4-symbol alphabet (case pair, high-bit byte) for lengths 0..3 x declared sizes, plus random longer operands; differential oracle against standard-function semantics",
+             level_text="Sign of comparisons, found positions, span counts, lengths, first/last same/diff indices, prefix and character-class predicates are compared with reference implementations; operands must be unchanged.",
+             level_note=GEN_NOTE + " Not modelled (declined): strnatcmp_s, wcsnatcmp_s, wcsicmp_s, strismixedcase_s, strispassword_s, empty-string corner cases the docs leave open; collation only in the C locale.", design_ref="DESIGN.md 3 C10"),
+ "C18": dict(engine="c18-program-generator", technique="generated client programs (seeded program generator) x compiler/optimisation/LTO build matrix, out-of-band observation of the dead buffer by a non-LTO spy TU, plain-memset positive control per victim",
+             level_text="Each generated victim erases a dying stack/heap/static buffer as its last action; a spy reads the bytes afterwards. A configuration only counts when the plain-memset control in the same binary shows residual data.",
+             level_note="gcc 12 and clang 14 on x86-64 only, -O0..-O3/-Os, with and without -flto; file-static victims always count as void controls; memzero_s delegates to glibc explicit_bzero.", design_ref="DESIGN.md 3 C18"),
+ "C19": dict(engine="c19-native+valgrind", technique="exhaustive byte-pair enumeration at every first-difference position (n<=8) plus random regions for the result; secret-tainting under Valgrind memcheck (operands marked undefined, error-count delta) for data independence across 8 compiler/optimisation variants, with a leaky comparator as live-channel control",
+             level_text="Result oracle: bcmp==0 iff equal, memcmp == sign of the first unsigned difference, regions flush against PROT_NONE pages. Independence oracle: any branch or address depending on operand bytes raises a memcheck error inside the function.",
+             level_note="Decides control-flow/address independence as seen by memcheck definedness tracking, not cycle-level timing; gcc 12/clang 14, x86-64.", design_ref="DESIGN.md 3 C19"),
+})
 UNCLAIMED = {}
